@@ -647,6 +647,9 @@ fn one_case(d: &mut Draw, thorough: bool) -> Outcome {
         classes.insert("same_file_name_in_two_directories".into());
     }
     classes.insert(if p.single_def { "one_definition_per_file" } else { "files_with_several_definitions" }.into());
+    if p.extra.iter().any(|e| e.defines.is_empty()) {
+        classes.insert("alias_only_file".into());
+    }
     if p.excluded_collisions > 0 {
         classes.insert("known_collision_excluded_by_renaming".into());
     }
